@@ -8,9 +8,9 @@
    (threads, flume, the OS), and the link between 'a lookup has no request in flight' and the tick input
    [dget] / between PutQuery's outcome and [dput] - those are read off the real node at every tick by the
    correspondence run (KCalls cases). *)
-From Coq Require Import Permutation.
+From Coq Require Import Permutation QArith.
 From MLV Require Import model.Bytes model.Inflight model.PutQuery model.Calls proofs.InflightProofs proofs.PutQueryProofs
-  proofs.CallsProofs.
+  proofs.CallsProofs model.Rtt proofs.RttProofs.
 Open Scope N_scope.
 
 (* a lookup is done as soon as none of its requests is in flight: every request older than the request
@@ -99,6 +99,20 @@ Example C06_history_example :
     (cstate0, [OPut 3 (OutErr (EConcurrency NotMostRecent)); OGet 0; OPut 1 (OutErr ENoClosestNodes); OPut 2 OutOk]).
 Proof. vm_compute. reflexivity. Qed.
 
+(* ---- the bound itself: the request timeout adapts to the round trips seen (TCP-like smoothing over the replies
+   that took 500 ms or more), and stays between 500 ms and five times the slowest reply ever sampled: with replies
+   delayed by at most D, 'one request timeout' is at most 5 D whatever the order and number of replies ---- *)
+Theorem C06_request_timeout_bounded : forall (D : Q) samples, (MIN_TIMEOUT <= D)%Q -> Forall (fun s => (s <= D)%Q) samples ->
+  (MIN_TIMEOUT <= rtt_timeout (rtt_run samples))%Q /\ (rtt_timeout (rtt_run samples) <= 5 * D)%Q.
+Proof. exact timeout_bounded. Qed.
+
+Theorem C06_fast_replies_leave_the_timeout_alone : forall r s, (s < MIN_TIMEOUT)%Q -> rtt_update r s = r.
+Proof. exact fast_replies_ignored. Qed.
+
+Example C06_timeout_example : (* 500 ms at the start; one reply after 1 s: 0.5625 + 4 * 0.109375 = 1 s *)
+  (rtt_timeout rtt0 == 1 # 2)%Q /\ (rtt_timeout (rtt_run [1%Q]) == 1)%Q.
+Proof. split; vm_compute; reflexivity. Qed.
+
 Print Assumptions C06_lookup_done_after_timeout.
 Print Assumptions C06_answered_request_not_inflight.
 Print Assumptions C06_put_store_phase_terminates.
@@ -115,3 +129,6 @@ Print Assumptions C06_put_told_or_parked.
 Print Assumptions C06_get_parks_on_active_lookup.
 Print Assumptions C06_checked_invariant_is_the_invariant.
 Print Assumptions C06_history_example.
+Print Assumptions C06_request_timeout_bounded.
+Print Assumptions C06_fast_replies_leave_the_timeout_alone.
+Print Assumptions C06_timeout_example.
